@@ -46,6 +46,14 @@ pub struct K {
     pub n_failed: usize,
     pub last_errno: usize,
     pub hook: Option<Hook>,
+    /// C09: a second call is legitimate only as dup3's retry after -EBUSY; checked inside the kernel so that a
+    /// wrapper that retries forever cannot escape the assertion
+    pub retry_rule: bool,
+    /// paths issuing more than this many calls are cut (bounded retries); 0 = no cap
+    pub max_calls: usize,
+    /// raw mode: 0 = any 64-bit value; 1 = errors only (execve); 2 = errno or a value in 0..=i32::MAX (calls
+    /// whose success value is a descriptor or pid)
+    pub raw_contract: u8,
     // --- descriptor table
     pub fd_open: u32,
     pub fd_initial: u32,
@@ -82,6 +90,9 @@ pub static mut KS: K = K {
     n_failed: 0,
     last_errno: 0,
     hook: None,
+    retry_rule: false,
+    max_calls: 0,
+    raw_contract: 0,
     fd_open: 0b111,
     fd_initial: 0b111,
     fd_born: 0,
@@ -188,10 +199,26 @@ impl K {
 pub unsafe fn kernel(n: usize, a: [usize; 6], _nargs: usize) -> usize {
     let k = ks();
     let idx = k.calls;
+    if k.retry_rule && idx >= 1 {
+        let prev = k.log[idx - 1];
+        assert!(
+            n == nr::DUP3 && prev.nr == nr::DUP3 && prev.ret == err(16),
+            "system call re-issued although the previous result was not dup3's -EBUSY"
+        );
+    }
+    if k.max_calls != 0 && idx >= k.max_calls {
+        kani::assume(false);
+    }
     k.calls += 1;
     let mut failed = false;
     let r = if !k.model {
-        kani::any()
+        let r: usize = kani::any();
+        if k.raw_contract == 1 {
+            kani::assume(is_err(r));
+        } else if k.raw_contract == 2 {
+            kani::assume(is_err(r) || r <= i32::MAX as usize);
+        }
+        r
     } else if idx < 32 && k.fail_mask & (1u32 << idx) != 0 && n != nr::EXIT && n != nr::EXIT_GROUP {
         failed = true;
         k.n_failed += 1;
